@@ -95,3 +95,118 @@ class HoldPermute:
 
     def flush_closed(self):
         pass
+
+
+class Tamper:
+    """C02: a malicious server (or third mailbox participant).  `ops` is a list of dicts
+    {victim: 'A'|'B', at: n, op: ..., ...}; the op fires when the n-th `message` event destined
+    to that victim passes through."""
+
+    OPS = ("flip", "trunc", "extend", "relabel", "side-fresh", "side-own", "reflect", "inject",
+           "dupdiff", "swap")
+
+    def __init__(self, world, ops):
+        self.world = world
+        self.rng = world.rng
+        self.ops = ops
+        self.names = {}          # side -> 'A'/'B'
+        self.count = {}
+        self.stored = {}
+        self.tampered = []       # (victim name, op, kwargs as sent)
+        self.held = {}
+        self.out_of_order = 0
+        self.dups = 0
+
+    def name_of(self, side):
+        return self.names.get(side, "?")
+
+    def intercept(self, conn, mtype, kwargs):
+        if mtype != "message":
+            return False
+        vs = conn._side
+        v = self.name_of(vs)
+        n = self.count.get(vs, 0)
+        self.count[vs] = n + 1
+        self.stored.setdefault(vs, []).append(dict(kwargs))
+        out = [("genuine", dict(kwargs))]
+        for op in self.ops:
+            if op["victim"] == v and op["at"] == n:
+                out = self.apply(op, vs, dict(kwargs), out)
+        # a swap holds one message back until the next one has gone out
+        if vs in self.held and not any(k == "hold" for k, _ in out):
+            out = out + [("tampered-order", self.held.pop(vs))]
+        for kind, kw in out:
+            if kind == "hold":
+                self.held[vs] = kw
+                continue
+            if kind.startswith("tampered"):
+                self.tampered.append((v, kind, dict(kw)))
+            conn.real_send("message", **kw)
+        return True
+
+    def actions(self):
+        return []
+
+    def _mut_body(self, body_hex, how, rng):
+        b = bytearray(bytes.fromhex(body_hex))
+        if how == "flip":
+            if not b:
+                b = bytearray(b"\x01")
+            else:
+                i = rng.randrange(len(b) * 8)
+                b[i // 8] ^= 1 << (i % 8)
+        elif how == "trunc":
+            b = b[:rng.randrange(0, max(1, len(b)))]
+        elif how == "extend":
+            b = b + rng.randbytes(rng.randint(1, 20))
+        return bytes(b).hex()
+
+    def apply(self, op, vs, kw, out):
+        rng = self.rng
+        kind = op["op"]
+        peer_sides = [s for s in self.names if s != vs]
+        peer = peer_sides[0] if peer_sides else "feedbeef00"
+        fresh = "%010x" % rng.getrandbits(40)
+        keep = op.get("keep", True)
+        t = dict(kw)
+        t["id"] = "%04x" % rng.getrandbits(16)
+        if kind in ("flip", "trunc", "extend"):
+            t["body"] = self._mut_body(kw["body"], kind, rng)
+            return [("tampered", t)] + (out if keep else [])
+        if kind == "dupdiff":
+            t["body"] = self._mut_body(kw["body"], "flip", rng)
+            return out + [("tampered", t)]
+        if kind == "relabel":
+            t["phase"] = op.get("phase", "0")
+            if t["phase"] == kw["phase"]:
+                t["phase"] = "7"
+            return [("tampered", t)] + out
+        if kind == "side-fresh":
+            t["side"] = fresh
+            return [("tampered", t)] + (out if keep else [])
+        if kind == "side-own":
+            t["side"] = vs if kw["side"] != vs else peer
+            return [("tampered", t)] + (out if keep else [])
+        if kind == "reflect":
+            own = [m for m in self.stored.get(vs, []) if m["side"] == vs]
+            # also the victim's adds seen on its connection so far
+            if not own:
+                return out
+            m = dict(own[-1] if op.get("which", "last") == "last" else own[0])
+            m["side"] = peer if op.get("as", "peer") == "peer" else fresh
+            m["id"] = t["id"]
+            if op.get("phase"):
+                m["phase"] = op["phase"]
+            return [("tampered", m)] + out
+        if kind == "inject":
+            t["phase"] = op.get("phase", "0")
+            t["side"] = peer if op.get("as", "peer") == "peer" else fresh
+            if t["phase"] == "pake" and op.get("wellformed", True):
+                import json as _j
+                t["body"] = _j.dumps({"pake_v1": rng.randbytes(33).hex()}).encode().hex()
+            else:
+                t["body"] = rng.randbytes(rng.choice([0, 1, 24, 40, 80])).hex()
+            return [("tampered", t)] + out
+        if kind == "swap":
+            return [("hold", kw)]
+        return out
